@@ -319,7 +319,9 @@ class MinGenSet():
         start_time = time.perf_counter()
 
         # Solve for increasing numbers of elements in the generating set
-        for k in range(self.lowerbound, max(self.lowerbound+1, len(self.initial_numbers))):
+        # A generating set with len(numbers) + 1 elements always exists (the differences of the sorted numbers,
+        # plus the remainder up to total), so this is the largest size that we need to try.
+        for k in range(self.lowerbound, max(self.lowerbound+1, len(self.initial_numbers)+2)):
             self._create_solver(k=k)
             self.solver.optimize()
 
